@@ -48,6 +48,10 @@ CHECKS = {
             "Copy constructor, assignment and copy-of-copy are compared byte for byte with the source; heavy edit sequences run on one side while the other side's full query record and "
             "block dump must stay identical; source-first and copy-first destruction are followed by queries and saves so that shared or dangling geometry pointers surface as changed "
             "answers or heap-use-after-free.", "3/C11"),
+    "C12": ("exploration", "runtime monitor: per-shape differential oracle between the model before and after OptimizeFor (in memory, after save+reload in the target version, and after converting back) plus the C10 partition invariants",
+            "Real LE/SE samples and API-built SK/SSE models (skinned/unskinned, colours, partitions, name clashes) are converted under option combinations; positions must be "
+            "bit-exact, triangle sets, UVs (half precision), colours (1/255), bone lists, normalised top-4 weights, parent nodes and shader kinds preserved, sibling names distinct, the "
+            "result must reload in the target version with valid partitions and convert back to equivalent geometry.", "3/C12"),
     "C13": ("exploration", "runtime monitor: API round-trip oracle (setter/creator -> getter, in memory and after save+reload) with storage-quantisation models, over versions x boundary vertex/triangle counts, under ASan/UBSan",
             "Meshes at the sizes {1,2,3,...,65535,65536,70000} are created in six versions; every getter is compared with the given data under the exact storage model (half-float "
             "rounding, byte quantisation) before and after raw/default save+reload, each setter is followed by all getters and by an all-arrays length check.", "3/C13"),
